@@ -769,6 +769,4 @@ theorem compile1_correct (nm : Names) (s : Schema) (data : Data) (q : Query) (vn
   simp only [Function.comp]
   rw [hv, project_frag1 s data (fuel + 2) nm.table q r hre hsels]
 
-#print axioms compile1_correct
-
 end Discret.SqlCompile
